@@ -685,7 +685,19 @@ func ruleExpiryRemoves(c *Ctx, rule string) {
 		perms := w.Field("allocation", "Allocation", "permissions")
 		c.Anchor(rule, "RemovePermission")
 		ok := false
-		w.eachInstr(fn, func(in ssa.Instruction) {
+		// a value of a helper RemovePermission calls at one site, in RemovePermission's terms
+		up := func(v ssa.Value, home *ssa.Function) ssa.Value {
+			if home == fn {
+				return v
+			}
+			p := rawParamOf(v, home)
+			site := w.singleSiteCI(home)
+			if p == nil || site == nil || site.Parent() != fn || paramIndex(p) >= len(site.Common().Args) {
+				return v
+			}
+			return site.Common().Args[paramIndex(p)]
+		}
+		w.eachInstrDeep(fn, func(in ssa.Instruction) {
 			call, isC := in.(*ssa.Call)
 			if !isC {
 				return
@@ -694,9 +706,10 @@ func ruleExpiryRemoves(c *Ctx, rule string) {
 			if !isB || b.Name() != "delete" {
 				return
 			}
+			home := in.Parent()
 			mb, mf, isLoad := fieldLoad(call.Call.Args[0])
-			kc, _ := callOf(call.Call.Args[1])
-			if !(isLoad && mf == perms && w.sameKey(mb, fn.Params[0]) && kc != nil && kc.Call.StaticCallee() == fp && w.sameKey(kc.Call.Args[0], fn.Params[1])) {
+			kc, _ := callOf(w.resolveLoad(up(call.Call.Args[1], home)))
+			if !(isLoad && mf == perms && w.sameKey(up(mb, home), fn.Params[0]) && kc != nil && kc.Call.StaticCallee() == fp && w.sameKey(kc.Call.Args[0], fn.Params[1])) {
 				return
 			}
 			// the delete may be conditional only on the presence of that very key
@@ -743,7 +756,20 @@ func ruleExpiryRemoves(c *Ctx, rule string) {
 			return lo != nil && lo.class == "allocation.Allocation.channelBindingsLock" && (lo.op == "Unlock" || lo.op == "RUnlock")
 		})
 		releasesTbl := func(h *ssa.Function) bool { return h != nil && w.IsMod[h] && len(h.Blocks) > 0 && relMemo(h) }
-		w.eachInstr(fn, func(in ssa.Instruction) {
+		// the number the removal is asked for, in the terms of the function that holds the
+		// rewrite (RemoveChannelBind itself, or a helper it calls at one site with that number)
+		isNumber := func(v ssa.Value, home *ssa.Function) bool {
+			if home == fn {
+				return w.sameKey(v, fn.Params[1])
+			}
+			p := rawParamOf(v, home)
+			site := w.singleSiteCI(home)
+			if p == nil || site == nil || paramIndex(p) >= len(site.Common().Args) {
+				return false
+			}
+			return w.sameKey(site.Common().Args[paramIndex(p)], fn.Params[1])
+		}
+		w.eachInstrDeep(fn, func(in ssa.Instruction) {
 			st, ok := in.(*ssa.Store)
 			if !ok {
 				return
@@ -757,7 +783,7 @@ func ruleExpiryRemoves(c *Ctx, rule string) {
 			for _, f := range w.factsAt(st) {
 				if f.Op == "==" && f.Truth {
 					for _, pair := range [][2]ssa.Value{{f.X, f.Y}, {f.Y, f.X}} {
-						if base, fl, isL := fieldLoad(pair[0]); isL && fl.Name() == "Number" && w.sameKey(pair[1], fn.Params[1]) {
+						if base, fl, isL := fieldLoad(pair[0]); isL && fl.Name() == "Number" && isNumber(pair[1], st.Parent()) {
 							// an observation made inside an accessor that takes and releases the
 							// table's lock itself is stale by the time the slice is rewritten
 							if site := w.siteOfValue(pair[0], base); site != nil && releasesTbl(site.Call.StaticCallee()) {
@@ -854,17 +880,17 @@ func ruleInstalledAddrFresh(c *Ctx, rule string) {
 			// dominates the install.
 			zeroedBeforeDecode := func() bool {
 				okZero := false
-				var zeroSt ssa.Instruction
+				var zeroSts []ssa.Instruction
 				w.eachInstr(fn, func(in ssa.Instruction) {
 					st, isSt := in.(*ssa.Store)
 					if !isSt || !(st.Addr == base || w.sameKey(st.Addr, base)) {
 						return
 					}
 					if cst, isC := st.Val.(*ssa.Const); isC && cst.Value == nil {
-						zeroSt = in
+						zeroSts = append(zeroSts, in)
 					}
 				})
-				if zeroSt != nil {
+				for _, zeroSt := range zeroSts {
 					w.eachInstr(fn, func(in ssa.Instruction) {
 						call, isC := in.(*ssa.Call)
 						if !isC || call.Call.StaticCallee() == nil || len(call.Call.Args) == 0 {
